@@ -1,6 +1,8 @@
 #!/bin/sh
 # tools/with_patch.sh <patch.diff> <command...> : apply a seeded change to /repo, run the command, always undo it.
 P="$(realpath "$1")"; shift
+# one user of /repo at a time (builders and the lead share it)
+exec 9>/tmp/verif-repo.lock; flock 9
 git -C /repo diff --quiet || { echo "/repo has uncommitted changes" >&2; exit 2; }
 git -C /repo apply "$P" || { echo "patch does not apply" >&2; exit 2; }
 "$@"; rc=$?
